@@ -214,6 +214,9 @@ func CollFamilies() []CollSpec {
 		// 7, 20 and 52 characters with pairwise different primary weights (consecutive Han ideographs differ in the
 		// last byte of a three-byte weight), each followed by two different digits
 		collFan("CFAN16", 7), collFan("CFAN48", 20), collFan("CFAN256", 52),
+		// ill-formed UTF-8 (Latin-1 bytes, stray 0xFF/0xFE, a truncated sequence): the collator weights each stray byte on its own,
+		// differently from U+FFFD; string and byte-slice keys only (a rune slice cannot hold them)
+		{Name: "ILLFORMED", Free: []string{"a\xffb", "a\ufffdb", "ab", "caf\xe9", "caf\u00e9", "a\xff\xfeb", "\xe6\x97"}, Probes: []string{"a\xfeb", "caf", "\xe6\x97\xa5"}},
 		{Name: "IGNORABLE", Free: []string{"", "\u0301", "\u0301\u0300", "a", "\u0300", "a\u0301"}, Probes: []string{"\u00ad", "a\u00ad", "\u0302", "\u0300\u0301"}},
 	}
 }
@@ -258,6 +261,9 @@ func CollationRegistry(prop, tier string) []UniverseDef {
 	fams := CollFamilies()
 	for _, sp := range fams {
 		for _, kt := range []string{"string", "[]byte", "[]rune"} {
+			if kt == "[]rune" && sp.Name == "ILLFORMED" {
+				continue
+			}
 			add(sp, und, kt, false)
 		}
 	}
